@@ -10,7 +10,7 @@ HARNESS = "router"
 HARNESS_ARGS = ["c14"]
 ALLOWED_AXIOMS = []
 RUN_IMPORT = "Router.MatchRun"
-READY = False
+READY = True
 SHRINK_PREFIX = 1
 
 RULE = ("one case = (base?, route table, path). Route tables: 27 fixed tables (upstream's own test tables, one "
@@ -277,6 +277,8 @@ def oracle(item, impl):
     base, routes, path = case[1], case[2], case[3]
     g_base, flats, expanded, m, nested = impl
     kind = item.get("kind", "")
+    if kind == "ref-xcheck":
+        return None      # the same case is judged under its own kind; see coverage_extra
     if not path or path[0] != 47:
         return None      # not a request path: outside the property (correspondence only)
     if g_base != base:
@@ -481,6 +483,8 @@ def valid_case(item):
 
 def nontrivial(item, model):
     # a case is non-trivial when something matched (either matcher entry point)
+    if item.get("kind") == "ref-xcheck":
+        return False
     try:
         return model[3] != [] or model[4][0] == 1
     except Exception:
@@ -677,6 +681,15 @@ def generate(rng, tier):
     """cases outside the known classes first, so that the first reported failure (the one
     the driver shrinks and writes a replay for) is one outside them whenever there is one"""
     items = list(_generate(rng, tier))
+    # every 25th case once more with opcode 1: the model then prints Router/Flat.v's verdicts
+    # (flat_any, matches, the four class predicates, wf) instead of the observation; the
+    # harness ignores the opcode.  coverage_extra compares them with this module's own
+    # reference and class predicates (two independent formulations of the reference).
+    extra = []
+    for it in items[::25]:
+        if it["kind"] != "raw-path":
+            extra.append(dict(case=[1] + it["case"][1:], kind="ref-xcheck", compare=False))
+    items += extra
     for it in items:
         it["known"] = known_class_of(it["case"])
         if it["known"] is not None:
@@ -717,3 +730,29 @@ def _generate(rng, tier):
         routes = gen_routes(rng)
         p = C.norm("".join(rng.choice(ALPHA + ["a", "b"]) for _ in range(rng.randint(0, 6))))
         yield dict(case=[0, [], routes, p], kind="raw-path")
+
+
+def coverage_extra(results):
+    n = bad = inst = inst_bad = 0
+    examples = []
+    for r in results:
+        it = r["item"]
+        if it.get("kind") != "ref-xcheck" or isinstance(r["impl"], str) or isinstance(r["model"], str):
+            continue
+        n += 1
+        base, routes, path = it["case"][1], it["case"][2], it["case"][3]
+        impl, m = r["impl"], r["model"]
+        want = ref_lookup(base, impl[1], path) is not None
+        py = [int(want), int(impl[3] != [] and impl[3] != [-1]), int(k_boundary(base, routes, path)),
+              int(k_slash_static(base, routes)), int(k_optional(routes)), int(k_dslash(path))]
+        if list(m[:6]) != py:
+            bad += 1
+            if len(examples) < 3:
+                examples.append(describe(it))
+        if not any(m[2:6]) and m[6] == 1:
+            inst += 1
+            if m[0] != m[1] or impl[3] == [-1]:
+                inst_bad += 1
+    return dict(reference_crosscheck_cases=n, reference_python_vs_coq_disagreements=bad,
+                reference_disagreement_examples=examples,
+                theorem_instances_outside_known_classes=inst, theorem_instances_violated=inst_bad)
